@@ -2,6 +2,7 @@ package main
 
 import (
 	"fmt"
+	"sort"
 	"strings"
 )
 
@@ -73,4 +74,31 @@ func qHead(state string) (int, string, bool) {
 	var v int
 	fmt.Sscanf(state[:i], "%d", &v)
 	return v, state[i+1:], true
+}
+
+// sequentialWitness: for a history whose operations do not overlap there is exactly one candidate order (invocation order); replaying
+// it decides the history in linear time, whatever its length. Returns the index (in invocation order) of the first operation whose
+// response the sequential specification does not allow.
+func sequentialWitness(ops []linOp) (bool, string) {
+	sorted := append([]linOp{}, ops...)
+	sort.Slice(sorted, func(i, j int) bool { return sorted[i].inv < sorted[j].inv })
+	state := ""
+	for i, o := range sorted {
+		if o.ret == 0 {
+			continue
+		}
+		ns, ok := o.apply(state)
+		if !ok {
+			return false, fmt.Sprintf("operation #%d %s is not what a FIFO list holding [%s] answers", i+1, o.name, abbreviate(state))
+		}
+		state = ns
+	}
+	return true, ""
+}
+
+func abbreviate(s string) string {
+	if len(s) > 120 {
+		return s[:60] + " ... " + s[len(s)-40:]
+	}
+	return s
 }
